@@ -74,8 +74,9 @@ def setup(config):
     config = config or CFG_MAIN
     from beyond.config import config as bc
 
+    pol = {} if config["policy"] == "history" else {"missing_policy": config["policy"]}
     if config["eop"] == "real":
-        bc.update({"eop": {"folder": POLE, "type": "all", "missing_policy": config["policy"]}})
+        bc.update({"eop": dict({"folder": POLE, "type": "all"}, **pol)})
         _G["real"] = ts.Model(_tables())
         try:
             from beyond.dates.eop import EopDb
@@ -88,7 +89,7 @@ def setup(config):
         # (that the library's table spans the same days as the reference reader's is established day by day by
         # the 'eopdb' part through the public EopDb.get, inside and outside the table)
     else:
-        bc.update({"eop": {"folder": "/nonexistent/verif-no-eop-here", "missing_policy": config["policy"]}})
+        bc.update({"eop": dict({"folder": "/nonexistent/verif-no-eop-here"}, **pol)})
     _G["zero"] = ts.Model(None)
     _G["config"] = dict(config)
     h = _Capture()
@@ -748,6 +749,145 @@ def replay_eopdb(case, t):
 
 
 # ---------------------------------------------------------------------------
+# part 6: histories.  (a) the policy is changed inside one process; (b) one DateRange object is used and modified
+
+POLICIES = ("pass", "warning", "error")
+
+
+def policy_sequences():
+    import itertools
+
+    out = []
+    for n in (2, 3):
+        for seq in itertools.product(POLICIES, repeat=n):
+            if len(set(seq)) > 1:  # constant sequences are the single-policy configurations of part 4
+                out.append(list(seq))
+    return out
+
+
+def check_policy_history(case, t):
+    """after every change of config['eop']['missing_policy'] the behaviour on an uncovered date follows the CURRENT setting"""
+    from beyond.dates import Date
+    from beyond.config import config as bc
+
+    cfg, seq = case["config"], case["seq"]
+    log = _G["log"]
+    real = _G.get("real")
+    t.states_add(1)
+    t.ev(("PH", cfg["eop"], tuple(seq)))
+    for k, pol in enumerate(seq):
+        if k % 2:
+            bc.set("eop", "missing_policy", pol)
+        else:
+            bc.update({"eop": dict(bc["eop"], missing_policy=pol)})
+        # an uncovered date (another one at every step) and, with tables, a covered one that must stay silent
+        D = 62702 + 37 * k + (len(seq) * 3)
+        for day, covered in ((D, False),) + (((55256 + k, True),) if cfg["eop"] == "real" else ()):
+            del log.records[:]
+            try:
+                x = Date(dt_of(day * DAY + 43_200 * TICKS), scale="UTC")
+                y = x.change_scale("TAI")
+                exc = None
+            except Exception as e:
+                x, exc = None, e
+            t.trans(2)
+            t.ev()
+            warn = [r for r in log.records if r[0] >= logging.WARNING]
+            want = "silent" if covered or pol == "pass" else pol
+            got = "error" if exc is not None else "warning" if warn else "silent"
+            if x is not None:
+                off = clock_ticks(y) - clock_ticks(x)
+                exp_off = real.tai_utc(day) if covered else 0
+                if off != exp_off:
+                    got += f"+offset {off / TICKS} s"
+            t.outcome(("policy history", want, got == want))
+            if got != want:
+                t.fail(f"EopDb.policy/history/current-setting-not-followed", "the configured policy applies (zero corrections silently, "
+                       "with a warning, or an exception) - the one configured when the date is built", case, want, got,
+                       f"policies set in this order in one process: {seq[:k + 1]}; {'covered' if covered else 'uncovered'} date MJD {day} "
+                       f"built under '{pol}' behaves as '{got}' ({len(warn)} warning record(s), exception {exc!r})")
+
+
+H_OPS = ("len", "iter", "in", "set-inclusive", "set-step", "set-stop", "set-start")
+H_BASES = [  # (label, span s, step s, inclusive)
+    ("TAI", 3600, 600, False), ("UTC", 3600, 600, True), ("TT", -3600, -600, False), ("UTC", -3000, -700, True),
+]
+
+
+def check_range_history(case, t):
+    """one DateRange object: every sequence of observations and public-attribute changes; the oracle is the integer
+    model of the CURRENT attributes"""
+    from beyond.dates import Date
+
+    L, span, step, incl = case["base"]
+    ops = case["ops"]
+    c0 = R_START["noon"]
+    m = dict(start=0, stop=span * 1_000_000, step=step * 1_000_000, incl=incl)  # microseconds relative to c0
+    mk = lambda us: Date(dt_of(c0 + us * US), scale=L)
+    r = Date.range(mk(0), mk(m["stop"]), timedelta(microseconds=m["step"]), inclusive=incl)
+    t.trans()
+    t.states_add(1)
+    t.ev(("RH", tuple(case["base"]), tuple(ops)))
+
+    def model():
+        e = list(range(m["start"], m["stop"], m["step"]))
+        if m["incl"] and (m["stop"] - m["start"]) % m["step"] == 0:
+            e.append(m["stop"])
+        return e
+
+    def observe(what, done):
+        exp = model()
+        state = f"after {done}: start={m['start'] / 1e6:+g} s, stop={m['stop'] / 1e6:+g} s, step={m['step'] / 1e6:g} s, inclusive={m['incl']}"
+        if what == "len":
+            n = len(r)
+            t.trans()
+            if n != len(exp):
+                t.fail("DateRange.__len__/after-use-or-attribute-change", "length, iteration and membership agree (with the current start, stop, step, inclusive)",
+                       case, len(exp), n, state)
+        elif what == "iter":
+            got = []
+            for x in r:
+                got.append(clock_ticks(x) // US - c0 // US)
+                if len(got) > len(exp) + 3:
+                    break
+            t.trans(len(got))
+            if got != exp:
+                t.fail("DateRange.__iter__/after-use-or-attribute-change", "length, iteration and membership agree (with the current start, stop, step, inclusive)",
+                       case, exp, got, state)
+        else:
+            probes = [(m["start"], True), (m["stop"], m["incl"]), (m["start"] - m["step"], False), (m["stop"] + m["step"], False)]
+            if exp:
+                probes.append((exp[-1], True))
+            obs = [(mk(us) in r) for us, _ in probes]
+            t.trans(len(probes))
+            if obs != [w for _, w in probes]:
+                t.fail("DateRange.__contains__/after-use-or-attribute-change", "length, iteration and membership agree (with the current start, stop, step, inclusive)",
+                       case, [w for _, w in probes], obs, state)
+        t.ev()
+
+    done = []
+    for op in ops:
+        done.append(op)
+        if op in ("len", "iter", "in"):
+            observe(op, done)
+        elif op == "set-inclusive":
+            m["incl"] = not m["incl"]
+            r.inclusive = m["incl"]
+        elif op == "set-step":
+            m["step"] = m["step"] * 2 if abs(m["step"]) < 1_000_000_000 else m["step"] // 2
+            r.step = timedelta(microseconds=m["step"])
+        elif op == "set-stop":
+            m["stop"] += 2 * m["step"] + (1 if m["step"] > 0 else -1) * 1_000_000
+            r.stop = mk(m["stop"])
+        elif op == "set-start":
+            m["start"] -= m["step"]
+            r.start = mk(m["start"])
+    for what in ("len", "iter", "in", "len"):
+        observe(what, done + ["(final)"])
+    t.outcome(("range history", len(ops)))
+
+
+# ---------------------------------------------------------------------------
 # units
 
 
@@ -792,6 +932,13 @@ def units(tier, seed):
         for start in R_START:
             for stopk in R_STOP:
                 u.append((CFG_MAIN, dict(part="range", span_us=span, start=start, stop=stopk, cap=cap)))
+    # histories
+    import itertools
+
+    for base in H_BASES:
+        u.append((CFG_MAIN, dict(part="range-history", base=list(base))))
+    for eop in ("real", "none"):
+        u.append(({"eop": eop, "policy": "history"}, dict(part="policy-history")))
     # policies
     for eop in ("real", "none"):
         for pol in ("pass", "warning", "error"):
@@ -833,6 +980,15 @@ def run_unit(p, t):
                                      inclusive=incl, label=L, stop=p["stop"], cap=p["cap"]), t)
     elif p["part"] == "eopdb":
         check_eopdb(dict(kind="eopdb", config=cfg, days=p["days"]), t)
+    elif p["part"] == "policy-history":
+        for seq in policy_sequences():
+            check_policy_history(dict(kind="policy-history", config=cfg, seq=seq), t)
+    elif p["part"] == "range-history":
+        import itertools
+
+        for n in (1, 2, 3):
+            for ops in itertools.product(H_OPS, repeat=n):
+                check_range_history(dict(kind="range-history", config=cfg, base=p["base"], ops=list(ops)), t)
     elif p["part"] == "policy":
         for D, _ in policy_dates():
             for sod in (3_600_000_000, 43_200_123_456):  # away from 0h: the day seams are the business of part 1
@@ -848,4 +1004,5 @@ def replay(case, t):
         raise RuntimeError("replay in a process configured for %r" % (_G.get("config"),))
     if _setup_failed(t, case) or case["kind"] == "setup":
         return
-    {"scales": check_scales, "arith": replay_arith, "range": check_range, "policy": check_policy, "eopdb": replay_eopdb}[case["kind"]](case, t)
+    {"scales": check_scales, "arith": replay_arith, "range": check_range, "policy": check_policy, "eopdb": replay_eopdb,
+     "policy-history": check_policy_history, "range-history": check_range_history}[case["kind"]](case, t)
